@@ -52,8 +52,28 @@ def audit (s : St) (ln : Nat) (fname : String) : St := Id.run do
             | some r => s!"root-not-reduced {repr r}"
             | none => "unknown"
       s := s.diff ln "canonical" s!"forest={fname} rule={f.rule} expected=Dump.check-accepts got={why}"
+  else if f.lab == "evp" || f.lab == "idx" then
+    -- EV+ forests: verified checker for the EV+ normal form (EDump.check_sound, EDD.canon)
+    let toE : Child Val → EChild := fun c => match c with
+      | .nd h => .nd h
+      | .tm .inf => .inf
+      | .tm _ => .omega
+    let evOf : Option Val → Int := fun v => match v with | some (.i x) => x | _ => 0
+    let D : EDump := recs.map (fun n =>
+      { handle := n.handle, pos := n.pos, down := (n.evs.zip n.down).map (fun (e, c) => (evOf e, toE c)) })
+    let S := shapeOf s f
+    let eroots : List (Int × EChild) := roots.map (fun c => (0, toE c))
+    s := s.tick
+    s := s.bump "audit.evp"
+    if !(EDump.check S D eroots) then
+      let why :=
+        if !(EDump.storeOK D) then "store-not-ok(duplicate node/handle or bad child)"
+        else match D.find? (fun n => !(EDump.nodeOK S D n)) with
+          | some n => s!"node-not-normal handle={n.handle} pos={n.pos}"
+          | none => "root-not-reduced"
+      s := s.diff ln "canonical" s!"forest={fname} rule={f.rule} labeling={f.lab} expected=EDump.check-accepts got={why}"
   else
-    s := s.bump "audit.ev"
+    s := s.bump "audit.evt"
   return s
 
 def checkRoot (s : St) (ln : Nat) (e fname : String) (ctok : String) : St := Id.run do
